@@ -10,6 +10,8 @@ FIRST = {  # outcome of the very first confrontation (before any strengthening),
  "C12-a": "caught", "C12-b": "caught", "C13-a": "caught", "C13-b": "caught", "C14-a": "caught", "C14-b": "caught", "C17-a": "missed", "C17-b": "missed",
  "C18-a": "caught", "C18-b": "caught"}
 FIRST.update({'C01-c': 'caught', 'C01-d': 'missed', 'C02-c': 'missed', 'C02-d': 'missed', 'C03-c': 'missed', 'C03-d': 'missed', 'C04-c': 'caught', 'C04-d': 'missed', 'C05-c': 'caught', 'C05-d': 'caught', 'C06-c': 'caught', 'C06-d': 'caught', 'C07-c': 'caught', 'C07-d': 'caught', 'C08-c': 'caught', 'C08-d': 'caught', 'C09-c': 'caught', 'C09-d': 'caught', 'C10-c': 'missed', 'C10-d': 'caught', 'C12-c': 'missed', 'C12-d': 'missed', 'C13-c': 'missed', 'C13-d': 'caught', 'C14-c': 'missed', 'C14-d': 'missed', 'C15-c': 'caught', 'C15-d': 'missed', 'C16-c': 'missed', 'C16-d': 'missed', 'C17-c': 'missed', 'C17-d': 'missed', 'C18-c': 'caught', 'C18-d': 'caught', 'C19-c': 'missed', 'C19-d': 'caught', 'C20-c': 'caught', 'C20-d': 'caught', 'C11-c': 'missed', 'C11-d': 'missed'})
+FIRST.update({'C01-e': 'caught', 'C01-f': 'missed', 'C02-e': 'missed', 'C02-f': 'caught', 'C03-e': 'missed', 'C03-f': 'missed', 'C04-e': 'caught', 'C04-f': 'missed', 'C05-e': 'caught', 'C05-f': 'missed', 'C06-e': 'caught', 'C06-f': 'missed', 'C07-e': 'missed', 'C07-f': 'caught', 'C08-e': 'missed', 'C08-f': 'missed', 'C09-e': 'missed', 'C09-f': 'missed', 'C10-e': 'caught', 'C10-f': 'caught', 'C11-e': 'missed', 'C11-f': 'missed', 'C12-e': 'missed', 'C12-f': 'caught', 'C13-e': 'caught', 'C13-f': 'caught', 'C14-e': 'caught', 'C14-f': 'missed', 'C15-e': 'missed', 'C15-f': 'caught', 'C16-e': 'caught', 'C16-f': 'missed', 'C17-e': 'missed', 'C17-f': 'missed', 'C18-e': 'caught', 'C18-f': 'caught', 'C19-e': 'missed', 'C19-f': 'missed', 'C20-e': 'missed', 'C20-f': 'caught'})
+TIER = {"C17-e": "thorough"}      # needs a model whose pickle exceeds 8 MiB: generated in the thorough tier only
 ALSO = {"C02-a": ["C10"], "C07-b": ["C09"], "C02-b": ["C01"], "C01-d": ["C10"], "C02-d": ["C01"], "C02-c": ["C05"], "C14-d": ["C16"]}
 sel = sys.argv[1:]
 for d in sorted(glob.glob(os.path.join(V, "seeded", "*"))):
@@ -19,7 +21,8 @@ for d in sorted(glob.glob(os.path.join(V, "seeded", "*"))):
     mp = os.path.join(d, "meta.json")
     m = json.load(open(mp))
     props = [m["breaks_property"]] + ALSO.get(name, [])
-    r = subprocess.run([os.path.join(V, "tools", "try_mutant.py"), os.path.join(d, "patch.diff")] + props, cwd=V, capture_output=True, text=True)
+    r = subprocess.run([os.path.join(V, "tools", "try_mutant.py"), os.path.join(d, "patch.diff")] + props + ["--tier", TIER.get(name, "quick")], cwd=V, capture_output=True, text=True)
+    m["tier_used"] = TIER.get(name, "quick")
     lines = r.stdout.strip().splitlines()
     m["checks_run_final"] = lines
     m["caught_by_final"] = next((l for l in lines if l.startswith("caught_by=")), "")
